@@ -31,6 +31,8 @@ def run(P, R, L):
     R.clause("PAIR-2", "followers popped by the leader receive the group's result before they are notified, and the leader's "
              "own return value derives from the same result")
     K.pair2_group_result(P, R, L)
+    R.clause("OWN-14", "the outcome slot of a queued writer is written only by set_operation_result, unconditionally, with the value passed in (the group's outcome reaches a follower through it)")
+    K.own14_writer_outcome_slot(P, R, L)
     R.clause("PAIR-16", "every follower popped by the leader is marked complete (constant true) before it is notified, whatever the group's result")
     K.pair16_followers_always_completed(P, R, L)
     R.clause("ORD-2", "a failed WAL append prevents the memtable insert: a write reported as failed is never visible")
